@@ -54,12 +54,14 @@ type demux struct {
 	mu     sync.Mutex
 	closed bool
 	in     chan frame
+	done   chan struct{} // Closed by Close. The in channel is never closed, so Enqueue can't race a close.
 }
 
 func newDemux() *demux {
 	d := demux{
 		in:       make(chan frame, 1),
 		requests: make(chan framesReq),
+		done:     make(chan struct{}),
 	}
 	go d.run()
 	return &d
@@ -100,23 +102,26 @@ func (d *demux) Close() error {
 	if d.closed {
 		return nil
 	}
-	close(d.in)
+	close(d.done)
 	d.closed = true
 	return nil
 }
 
+// Enqueue blocks until the frame is queued or the demux is closed.
+//
+// A slow consumer results in back-pressure on the producer (ultimately the TNC socket) instead of dropped frames.
 func (d *demux) Enqueue(f frame) bool {
-	d.mu.Lock()
-	defer d.mu.Unlock()
-	if d.closed {
+	select {
+	case <-d.done:
 		return false
+	default:
 	}
 	select {
 	case d.in <- f:
-	default:
-		debugf("port buffer full - dropping frame")
+		return true
+	case <-d.done:
+		return false
 	}
-	return true
 }
 
 func (d *demux) NextFrame(kinds ...kind) <-chan frame {
@@ -148,36 +153,42 @@ func (d *demux) Frames(bufSize int, filter framesFilter) (filtered <-chan frame,
 func (d *demux) run() {
 	defer debugf("demux exited")
 	var clients []framesReq
+	dispatch := func(f frame) {
+		// Match against active clients
+		for i := 0; i < len(clients); i++ {
+			c := clients[i]
+			if !c.Want(f) {
+				continue
+			}
+			select {
+			case c.resp <- f:
+				if !c.once {
+					continue
+				}
+			case <-c.done:
+			}
+			close(c.resp)
+			clients = append(clients[:i], clients[i+1:]...)
+			i--
+		}
+	}
 	for {
 		select {
 		case c := <-d.requests:
 			clients = append(clients, c)
-		case f, ok := <-d.in:
-			if !ok {
-				debugf("demux closing (%d clients)...", len(clients))
-				for _, c := range clients {
-					close(c.resp)
-				}
-				clients = nil
-				return
+		case f := <-d.in:
+			dispatch(f)
+		case <-d.done:
+			// Deliver what was queued before Close() was called.
+			for len(d.in) > 0 {
+				dispatch(<-d.in)
 			}
-			// Match against active clients
-			for i := 0; i < len(clients); i++ {
-				c := clients[i]
-				if !c.Want(f) {
-					continue
-				}
-				select {
-				case c.resp <- f:
-					if !c.once {
-						continue
-					}
-				case <-c.done:
-				}
+			debugf("demux closing (%d clients)...", len(clients))
+			for _, c := range clients {
 				close(c.resp)
-				clients = append(clients[:i], clients[i+1:]...)
-				i--
 			}
+			clients = nil
+			return
 		}
 	}
 }
